@@ -94,10 +94,12 @@ theorem indexEvents_ext (d0 d d' : DB) (evs : List Event) (typ : Str) (h : Nat)
   unfold indexEvents at he
   refine foldlM_inv (Ext d0) _ ?_ evs d d' hd he
   intro b e b' hb hfe
+  unfold indexEvent at hfe
   split at hfe
   · cases hfe; exact hb
   · refine foldlM_inv (Ext d0) _ ?_ e.attrs b b' hb hfe
     intro b2 a b2' hb2 hfa
+    unfold indexAttr at hfa
     by_cases h1 : a.key.isEmpty = true
     · simp only [h1, if_true, Option.some.injEq] at hfa
       rw [← hfa]; exact hb2
@@ -155,11 +157,13 @@ theorem indexEvents_primary (d d' : DB) (evs : List Event) (typ : Str) (h : Nat)
     refine foldlM_inv (fun d2 => BKey.primary x ∈ d2.map (·.1) → BKey.primary x ∈ d.map (·.1)) _ ?_
       evs d d' (fun hh => hh) he
     intro b e b' hb hfe
+    unfold indexEvent at hfe
     split at hfe
     · cases hfe; exact hb
     · refine foldlM_inv (fun d2 => BKey.primary x ∈ d2.map (·.1) → BKey.primary x ∈ d.map (·.1)) _ ?_
         e.attrs b b' hb hfe
       intro b2 a b2' hb2 hfa
+      unfold indexAttr at hfa
       by_cases h1 : a.key.isEmpty = true
       · simp only [h1, if_true, Option.some.injEq] at hfa
         rw [← hfa]; exact hb2
